@@ -33,7 +33,7 @@ Definition kfmt (k : kind) : option fmt :=
 Definition has_index (k : kind) : bool :=
   match k with KEnc | KCount | KWeight | KScoring | KScores => true | _ => false end.
 
-Definition LANES : nat := 32.   (* DefaultColumns of the x86-64 build: AVX2 lanes *)
+Definition LANES : nat := 32.   (* DefaultColumns of the x86-64 build: AVX2 lanes; re-extracted: GenSlots.gen_lanes *)
 
 (* what the model's __getbuffer__ of each class puts in the fields that do not depend on
    the object: (format, ndim, itemsize, shape exported, strides exported) — compared with
@@ -43,6 +43,16 @@ Definition desc_consts (b : pybuf) : option (fmt * nat * Z * bool * bool) :=
         match pb_shape b with Some _ => true | None => false end,
         match pb_strides b with Some _ => true | None => false end).
 
+(* (readonly, suboffsets NULL, internal NULL, view.obj = new reference to the exporter,
+   WRITABLE requests refused, NULL view refused, flags used for nothing else).  The model has
+   no suboffsets / internal / obj fields and no NULL-view case: it *assumes* NULL, NULL, a new
+   reference and the guard (the `true` constants), which is what the table re-extracted from
+   lib.rs has to say as well. *)
+Definition misc_consts (b : pybuf) : option (bool * bool * bool * bool * bool * bool * bool) :=
+  Some (pb_readonly b, true, true, true,
+        match getbuffer_request 1 b with Err _ => true | _ => false end, true,
+        match getbuffer_request 284 b, getbuffer_request 0 b with Ok _, Ok _ => true | _, _ => false end).
+
 Definition model_getbuffer (k : kind) : option (fmt * nat * Z * bool * bool) :=
   match k with
   | KEnc => desc_consts (enc_getbuffer (@nil unit))
@@ -50,6 +60,16 @@ Definition model_getbuffer (k : kind) : option (fmt * nat * Z * bool * bool) :=
   | KScoring => desc_consts (scoring_getbuffer (scoring_new 0 0 (@nil (list unit))))
   | KStriped => desc_consts (striped_getbuffer (striped_new 0 0 (@nil (list unit)) 0))
   | KScores => desc_consts (scores_getbuffer (scores_new 0 0 (@nil (list unit)) 0))
+  | KCount | KWeight => None
+  end.
+
+Definition model_getbuffer_misc (k : kind) : option (bool * bool * bool * bool * bool * bool * bool) :=
+  match k with
+  | KEnc => misc_consts (enc_getbuffer (@nil unit))
+  | KDist => misc_consts (dist_getbuffer (@nil unit))
+  | KScoring => misc_consts (scoring_getbuffer (scoring_new 0 0 (@nil (list unit))))
+  | KStriped => misc_consts (striped_getbuffer (striped_new 0 0 (@nil (list unit)) 0))
+  | KScores => misc_consts (scores_getbuffer (scores_new 0 0 (@nil (list unit)) 0))
   | KCount | KWeight => None
   end.
 
@@ -346,6 +366,29 @@ Section Spec.
         | _ => {| o_len := OPanic; o_get := []; o_view := OPanic |}
         end
     end.
+  (* the Py_buffer __getbuffer__ fills for the object (before looking at the flags), and
+     the outcome of PyObject_GetBuffer(obj, &view, flags) *)
+  Definition model_buf (o : lobj) (wraps : list nat) (L M : nat) : res pybuf :=
+    match o with
+    | LSeq KEnc l => Ok (enc_getbuffer l)
+    | LSeq _ l => Ok (dist_getbuffer l)
+    | LRows KScoring K t => Ok (scoring_getbuffer (scoring_new K (dense_stride 4 K) t))
+    | LRows _ _ _ => Err EType
+    | LStriped KScores R pos maxi =>
+        Ok (scores_getbuffer (scores_of dflt LANES (dense_stride 4 LANES) (seq_rows L) L M pos))
+    | LStriped _ R pos _ =>
+        s <- configure_all dflt LANES wraps
+               (striped_new LANES (dense_stride 1 LANES) (striped_table dflt LANES R pos) L) ;;
+        Ok (striped_getbuffer s)
+    end.
+
+  Definition model_request (o : lobj) (wraps : list nat) (L M : nat) (flags : Z) : res pybuf :=
+    b <- model_buf o wraps L M ;; getbuffer_request flags b.
+
+  (* PyObject_GetBuffer(obj, NULL, flags): `if view.is_null() { BufferError }` (only reachable
+     from C / ctypes) *)
+  Definition model_request_null (o : lobj) (wraps : list nat) (L M : nat) : res pybuf :=
+    b <- model_buf o wraps L M ;; Err EBuffer.
 End Spec.
 
 Arguments OVal {V}. Arguments OExc {V}. Arguments OPanic {V}.
